@@ -72,7 +72,7 @@ func makeCacheStatusHeader(cached typeutils.Optional[*cache.Entry[cachedRequestI
 	}
 
 	if cached.IsSome() && (cacheStatus.hitStatus == hitStatusHit || cacheStatus.hitStatus == hitStatusRevalidated) {
-		ttl := max(0, int(time.Until(cached.ForceUnwrap().Metadata.Expires).Seconds()))
+		ttl := max(0, int(time.Until(cached.ForceUnwrap().Expires).Seconds()))
 		params = append(params, fmt.Sprintf("ttl=%d", ttl))
 	}
 
